@@ -2,5 +2,6 @@ SPECIFICATION Spec
 CONSTANTS
   NCalls = 5
   OnErrorBody = "skip"
+  OnTimeout = "keep"
 INVARIANTS TypeOK OwnAnswer NoPhantom Isolation
 CHECK_DEADLOCK FALSE
